@@ -64,6 +64,9 @@ def run_traces(ctx: Ctx, own: str, scenarios: List[dict]) -> List[dict]:
 
 
 def run(ctx: Ctx) -> None:
+    # the lifetime predicates the contracts rest on, at every boundary (spec/Ttl.tla, Oracle_Ttl.tla)
+    from props import ttloracle
+    ttloracle.run(ctx, 'C10')
     from props import schedmodel as sm
     rng = random.Random(ctx.seed * 7919 + 10)
     n = ctx.pick(400, 15000)
